@@ -115,6 +115,88 @@ func c01Case(t *testing.T, root *vw.Rng, ci int, tr *vw.Trace) {
 	}
 }
 
+// deliverWhere keeps delivering (normally) parked calls selected by pred until none is left.
+func deliverWhere(d *vc.Driver, pred func(r *vc.RPC) bool) {
+	for i := 0; i < 200; i++ {
+		var pick *vc.RPC
+		for _, r := range d.Cl.S.Pending() {
+			if r.State == vc.StParked && pred(r) {
+				pick = r
+				break
+			}
+		}
+		if pick == nil {
+			return
+		}
+		d.Step(pick, vc.ModeDeliver)
+	}
+}
+
+func c01Report(d *vc.Driver, id string) {
+	seen := map[string]bool{}
+	for _, b := range d.Bads {
+		if seen[b.Sig] {
+			continue
+		}
+		seen[b.Sig] = true
+		vw.Report(vw.Violation{Property: "C01", Signature: b.Sig, What: b.What, Case: id, Detail: b.Detail})
+	}
+}
+
+// c01Directed: the window "leader change after the pulls were sent and before the commit", with the
+// new leader repairing the same tract onto the same spare server while the old leader's PullTract
+// is still in flight, and a client write racing the late pull.
+func c01Directed(root *vw.Rng, tr *vw.Trace, id string, lateAfterWriteAtD bool) {
+	d := vc.NewDriver(root.Fork(7777), 4, []bool{true, false}, id)
+	defer d.Cl.Close()
+	d.NewBlob(3)
+	d.Cl.S.SetAuto(false)
+	d.StartWrite(0, 0, 0, 100)
+	d.Quiesce()
+	st := d.Cl.D.Tract(d.TractID(0, 0))
+	if !st.OK || len(st.Hosts) != 3 {
+		return
+	}
+	bad := int(st.Hosts[2])
+	spare := 0
+	for i := 1; i <= 4; i++ {
+		is := false
+		for _, h := range st.Hosts {
+			if int(h) == i {
+				is = true
+			}
+		}
+		if !is {
+			spare = i
+		}
+	}
+	// old leader: bump the survivors, send the pull, and get no further
+	d.StartReplicate(0, 0, []int{bad})
+	deliverWhere(d, func(r *vc.RPC) bool { return r.Kind == vc.KSetVersion })
+	// leadership moves on; the new leader hears from everybody and repairs the same tract
+	d.LeaderChange()
+	for i := 1; i <= 4; i++ {
+		d.Heartbeat(i)
+	}
+	d.StartReplicate(0, 0, []int{bad})
+	deliverWhere(d, func(r *vc.RPC) bool { return r.Client < 0 && r.Gen == d.Cl.Cur.Gen })
+	// the writer (stale cache) writes again; let everything of the client run except the data writes at the new version
+	d.StartWrite(0, 0, 40, 100)
+	deliverWhere(d, func(r *vc.RPC) bool { return r.Client == 0 && !(r.Kind == vc.KWrite && r.Version == st.Version+1) })
+	if lateAfterWriteAtD {
+		deliverWhere(d, func(r *vc.RPC) bool { return r.Client == 0 && r.Kind == vc.KWrite && r.TS == spare })
+	}
+	// now the old leader's PullTract finally reaches the spare server
+	deliverWhere(d, func(r *vc.RPC) bool { return r.Client < 0 && r.Kind == vc.KPullTract })
+	d.Quiesce()
+	d.CheckAllReplicas()
+	d.StartRead(1, 0, 0, 200)
+	d.Quiesce()
+	c01Report(d, id)
+	d.WriteTrace(tr)
+	vw.Stat("directed", 1)
+}
+
 func TestVerifC01(t *testing.T) {
 	if !vw.Enabled() {
 		t.Skip("verification harness: run through /verif/bin/check")
@@ -130,6 +212,12 @@ func TestVerifC01(t *testing.T) {
 	tr := vw.OpenTrace("C01.trace")
 	defer tr.Close()
 	defer vw.Finish("C01")
+	if vw.CaseSelected("d0") {
+		c01Directed(root, tr, "d0", false)
+	}
+	if vw.CaseSelected("d1") {
+		c01Directed(root, tr, "d1", true)
+	}
 	n := vw.Scale(40, 2000)
 	for ci := 0; ci < n; ci++ {
 		if !vw.CaseSelected(fmt.Sprint(ci)) {
